@@ -133,6 +133,7 @@ def run(ctx):
     rng = ctx.rng
     ctx.classifiers["root_only_registration_cycle"] = lambda case: (isinstance(case, dict) and case.get("roottypes") and case.get("oracle") == "F" and case.get("impl") == "ok"
                                                                     and case.get("pinned_root_only") == "ok")
+    ctx.classifiers["allof_edge_on_an_accepted_cycle"] = lambda case: isinstance(case, dict) and case.get("cls") == "allof_cycle" and case.get("impl") == "E703"
     ctx.extra["rule"] = ("directed type graphs over up to 6 object types whose properties are required references, optional references, array items, or-shortcuts (required/optional), "
                          "nested objects, additionalProperties types and scalars, with and without a missing type; both registration styles (types added to every schema / to the root only); "
                          "Check verdict and code against the extracted Coq checker model (check_all: the root walk, then every type as its own root) and against inhabited_all_b (the root and every type have a finite inhabitant); 1302 iff a referenced type is missing; UsedUserTypes = "
@@ -283,6 +284,10 @@ def run(ctx):
         {"what": "missing type inside an or rule-set", "schema": '1 // {or: [{type: "@ZZ"}, {type: "integer"}]}', "types": [], "check": "E1302", "used": ["@ZZ"]},
         {"what": "types inside an or rule-set", "schema": '1 // {or: [{type: "@A"}, "@B", {type: "@C", nullable: true}, {type: "object", additionalProperties: "@D"}]}',
          "types": [["@A", "1"], ["@B", "2"], ["@C", "3"], ["@D", "4"]], "check": "ok", "used": ["@A", "@B", "@C", "@D"]},
+        {"what": "allOf cycle through an array", "schema": "@node", "types": [["@node", '{\n  "children": [\n    {} // {allOf: "@node"}\n  ]\n}']], "check": "ok", "used": ["@node"], "cls": "allof_cycle"},
+        {"what": "allOf cycle through an optional property", "schema": "@node", "types": [["@node", '{\n  "next": {} // {allOf: "@node", optional: true}\n}']], "check": "ok", "used": ["@node"], "cls": "allof_cycle"},
+        {"what": "allOf cycle through an array, two types", "schema": "@a", "types": [["@a", '{\n  "bs": [\n    @b\n  ]\n}'], ["@b", '{ // {allOf: "@a"}\n  "x": 1\n}']], "check": "ok", "used": ["@a"], "cls": "allof_cycle"},
+        {"what": "direct allOf self-reference (required: no finite expansion)", "schema": "@n", "types": [["@n", '{ // {allOf: "@n"}\n}']], "check": "err", "used": ["@n"]},
         {"what": "required self-reference through a key-shortcut property", "schema": "@r", "types": [["@r", '{\n  @k: @r\n}'], ["@k", '"a" // {minLength: 1}']], "check": "err", "used": ["@r"]},
         {"what": "required self-reference through a key-shortcut property after a named one", "schema": "@r", "types": [["@r", '{\n  "n": 1,\n  @k: @r\n}'], ["@k", '"a" // {minLength: 1}']], "check": "err", "used": ["@r"]},
         {"what": "optional self-reference through a key-shortcut property", "schema": "@r", "types": [["@r", '{\n  @k: @r // {optional: true}\n}'], ["@k", '"a" // {minLength: 1}']], "check": "ok", "used": ["@r"]},
@@ -312,7 +317,8 @@ def run(ctx):
             continue
         good = (chk == "ok") if c["check"] == "ok" else (chk != "ok" if c["check"] == "err" else chk == c["check"])
         if not good and len(ctx.violations) < 40:
-            ctx.report("%s: Check says %s, the statement says %s; root %r types %r" % (c["what"], r[0], c["check"], c["schema"], c["types"]), "c09fixed:" + c["schema"] + json.dumps(c["types"]), dict(c, implementation=r), case=c)
+            ctx.report("%s: Check says %s, the statement says %s; root %r types %r" % (c["what"], r[0], c["check"], c["schema"], c["types"]), "c09fixed:" + c["schema"] + json.dumps(c["types"]), dict(c, implementation=r),
+                       case=dict(c, impl=chk.split("@")[0]))
         elif len(r) > 1 and r[1].startswith("U:") and sorted(x for x in r[1][2:].split(",") if x) != sorted(c["used"]) and len(ctx.violations) < 40:
             ctx.report("%s: UsedUserTypes = %s, the schema text references %s; root %r" % (c["what"], r[1][2:], c["used"], c["schema"]), "c09fixedused:" + c["schema"], dict(c, implementation=r), case=c)
     late = [{"schema": '{\n  "a": @A\n}', "ops": [[first], ["addtype", "@A", "1"], ["check"]]} for first in ("check", "ast", "example", "used", "len")]
